@@ -2,6 +2,7 @@ import GeoVerif.Corr.Proto
 import GeoVerif.Model.Clenshaw
 import GeoVerif.Model.GeodLengths
 import GeoVerif.Model.GeodLine
+import GeoVerif.Model.GeodLineExact
 import GeoVerif.Model.MathF
 import GeoVerif.FP.RunErr
 /-! Correspondence for C01: documented output ranges, decided on every sampled result; the series solver itself
@@ -103,17 +104,154 @@ def handleLine (op : String) (args res : List String) : Option Verdict :=
     | _, _, _ => .bad "parse"
   | _ => none
 
+
+/-! ### the elliptic-integral line against its kernel-parametric model (`Model/GeodLineExact.lean`)
+
+Same reading as above.  The kernels (`EllipticFunction` members, the DST coefficients) are filled with the values the
+harness obtained from an `EllipticFunction` object it constructed itself with the documented parameters, at the documented
+arguments.  As a function of running-error numbers a kernel returns that value with the error bound
+`2·Lip·(e_sn + e_cn + e_dn) + u·|v|`, `Lip` a bound of the derivative of the kernel along the auxiliary sphere
+(`deltaE`: `1 + dn/E0`; `deltaD`: `1 + 1/(dn D0)`; `deltaH`: `1 + max(1, f1²)/(dn H0)`; `deltaEinv`: `1 + E0/min(1, √kp2)`): the
+model's arguments and the implementation's arguments are both within their running-error bound of the exact ones.
+The model's own arguments are compared with the arguments the harness used. -/
+
+open GeodLineX in
+def lineXOf (l : List Float) : Option (LineX RE × List Float) := do
+  let (h, r) ← takeN 28 l
+  let g (i : Nat) := RE.exact (h.getD i 0)
+  some (⟨g 0, g 1, g 2, g 3, g 4, g 5, g 6, g 7, g 8, g 9, g 10, g 11, g 12, g 13, g 14, g 15, g 16, g 17, g 18, g 19, g 20, g 21, g 22,
+         g 23, g 24, g 25, g 26, g 27⟩, r)
+
+open GeodLineX in
+def lineXFields (L : LineX RE) : List (String × RE) :=
+  [("_f", L.f), ("_f1", L.f1), ("_e2", L.e2), ("_b", L.b), ("_c2", L.c2), ("tiny_", L.tiny), ("_lon1", L.lon1), ("_salp1", L.salp1), ("_calp1", L.calp1),
+   ("_dn1", L.dn1), ("_salp0", L.salp0), ("_calp0", L.calp0), ("_ssig1", L.ssig1), ("_csig1", L.csig1), ("_somg1", L.somg1),
+   ("_cchi1", L.cchi1), ("_k2", L.k2), ("_eE.kp2", L.kp2), ("_eE0", L.E0), ("_eE1", L.E1), ("_stau1", L.stau1), ("_ctau1", L.ctau1),
+   ("_dD0", L.D0), ("_dD1", L.D1), ("_hH0", L.H0), ("_hH1", L.H1), ("_aA4", L.A4), ("_bB41", L.B41)]
+
+/-- a kernel value obtained from the implementation, as a function of running-error arguments -/
+def kval (v lip : Float) (args : List RE) : RE := ⟨v, 2 * lip * (args.foldl (fun s a => s + a.e) 0) + RE.u * v.abs⟩
+
+/-- the coefficient list written by `xline::c4list`: `n c[0] … c[n-1]`, or `-1` when it is too long to be written -/
+def takeC4 (l : List String) : Option (Option (List Float) × List String) :=
+  match l with
+  | "-1" :: r => some (none, r)
+  | n :: r => do
+    let k ← n.toNat?
+    if r.length < k then none else
+    let c ← (r.take k).mapM pfl
+    some (some c, r.drop k)
+  | [] => none
+
+open GeodLineX in
+def handleLineX (op : String) (args res : List String) : Option Verdict :=
+  match op with
+  | "xgeodconst" => some <|
+    if res == ["!E"] then .skip "constructor rejects the ellipsoid" else
+    match args.mapM pfl, res.mapM pfl with
+    | some [a, f], some (tiny :: eps0 :: impl) =>
+      let g := geodesicX (RE.exact a) (RE.exact f) (RE.exact tiny) (RE.exact eps0)
+      let m := [("_f1", g.f1), ("_e2", g.e2), ("_ep2", g.ep2), ("_n", g.n), ("_b", g.b), ("_c2", g.c2), ("_etol2", g.etol2)]
+      if m.length != impl.length then .bad s!"GeodesicExact constants: {impl.length} values emitted, the model has {m.length}"
+      else verdictOf "GeodesicExact::GeodesicExact" (cmpAll ((m.zip impl).map fun ((n, r), i) => (n, i, r)))
+    | _, _ => .bad "parse"
+  | "xlineinit" => some <|
+    match args.mapM pfl, (res.take 18).mapM pfl, takeC4 (res.drop 18) with
+    | some [_a, _f, _lat1, lon1, _azi1], some [ga, gf, gf1, ge2, gep2, gb, gc2, tiny, sb, cb, sa, ca, ec, dc, hc, dE1, dD1, dH1], some (c4, rest) =>
+      match rest.mapM pfl with
+      | some impl =>
+        let x := RE.exact
+        let g : GeodX RE := ⟨x ga, x gf, x gf1, x ge2, x gep2, x 0, x gb, x gc2, x 0, x tiny⟩
+        let e0 := ec / 1.5707963267948966
+        let d0 := dc / 1.5707963267948966
+        let h0 := hc / 1.5707963267948966
+        let K : Ell RE :=
+          { Ec := x ec, Dc := x dc, Hc := x hc,
+            deltaE := fun sn cn dn => kval dE1 (1 + dn.v.abs / e0) [sn, cn, dn],
+            deltaD := fun sn cn dn => kval dD1 (1 + 1 / (dn.v.abs * d0)) [sn, cn, dn],
+            deltaH := fun sn cn dn => kval dH1 (1 + (if gf1 * gf1 > 1 then gf1 * gf1 else 1) / (dn.v.abs * h0)) [sn, cn, dn],
+            deltaEinv := fun _ _ => x 0,
+            C4a := (c4.getD []).map x }
+        let (L, _) := lineInitX g K (x lon1) (x sb) (x cb) (x sa) (x ca)
+        let m := lineXFields L
+        let m := if c4.isNone then m.filter (fun p => p.1 != "_bB41") else m
+        let impl' := if c4.isNone then (impl.take 27) else impl
+        if m.length != impl'.length then .bad s!"LineInit (exact): {impl'.length} members emitted, the model has {m.length}"
+        else verdictOf "GeodesicLineExact::LineInit" (cmpAll ((m.zip impl').map fun ((n, r), i) => (n, i, r)))
+      | none => .bad "parse"
+    | _, _, _ => .bad "parse"
+  | "xgenpos" => some <|
+    match args.take 5 |>.mapM pfl, args.drop 5, (res.take 40).mapM pfl, takeC4 (res.drop 40) with
+    | some [_a, _f, _lat1, lon1, _azi1], [arc, lenS, un], some hd, some (c4, rest) =>
+      match lineXOf hd, rest.mapM pfl, pfl lenS with
+      | some (L, [sk, ck, stau2, ctau2, dEinv, ssig2, csig2a, csig2b, dn2, dE2, dD2, dH2]), some [a12, lat2, lon2, azi2, s12, m12, M12, M21, S12], some len =>
+        let x := RE.exact
+        let arcmode := arc == "1"
+        let unroll := un == "1"
+        let f1 := L.f1.v
+        let dnmin := let k := Float.sqrt L.kp2.v; if k < 1 then k else 1
+        let K : Ell RE :=
+          { Ec := x 0, Dc := x 0, Hc := x 0,
+            deltaE := fun sn cn dn => kval dE2 (1 + dn.v.abs / L.E0.v) [sn, cn, dn],
+            deltaD := fun sn cn dn => kval dD2 (1 + 1 / (dn.v.abs * L.D0.v)) [sn, cn, dn],
+            deltaH := fun sn cn dn => kval dH2 (1 + (if f1 * f1 > 1 then f1 * f1 else 1) / (dn.v.abs * L.H0.v)) [sn, cn, dn],
+            deltaEinv := fun st ct => kval dEinv (1 + L.E0.v / dnmin) [st, ct],
+            C4a := (c4.getD []).map x }
+        let p := genPositionX L K arcmode (x len) (x sk) (x ck) unroll
+        -- the arguments at which the kernels were evaluated
+        let tau12 : RE := x len / (L.b * L.E0)
+        let c := RealLike.cos tau12
+        let s := RealLike.sin tau12
+        let argsB := if arcmode then [] else [cmp "stau2 (kernel argument)" false stau2 (L.stau1 * c + L.ctau1 * s), cmp "ctau2 (kernel argument)" false ctau2 (L.ctau1 * c - L.stau1 * s)]
+        let csig2pre : RE := L.csig1 * p.csig12 - L.ssig1 * p.ssig12
+        let argsB := argsB ++ [cmp "ssig2 (kernel argument)" false ssig2 p.ssig2, cmp "csig2 (kernel argument)" false csig2a csig2pre,
+                               cmp "csig2 (kernel argument, after the degenerate case)" false csig2b p.csig2, cmp "dn2 (kernel argument)" false dn2 p.dn2]
+        let lonM : RE :=
+          if unroll then p.lon2u else
+            let y := F64.toFloat (MathF.angNormalize (MathF.angNormalize (F64.ofFloat lon1) + MathF.angNormalize (F64.ofFloat p.lon12.v)))
+            ⟨y, p.lon12.e + RE.u * y.abs⟩
+        let outs := [cmp "a12" false a12 p.a12, cmp "lat2" false lat2 p.lat2, cmp "lon2" (!unroll) lon2 lonM, cmp "azi2" true azi2 p.azi2,
+                     cmp "s12" false s12 p.s12, cmp "m12" false m12 p.m12, cmp "M12" false M12 p.M12, cmp "M21" false M21 p.M21]
+        let outs := if c4.isSome then outs ++ [cmp "S12" false S12 p.S12] else outs
+        verdictOf "GeodesicLineExact::GenPosition" ((argsB ++ outs).filterMap id)
+      | _, _, _ => .bad "parse"
+    | _, _, _, _ => .bad "parse"
+  | "einv" => some <|
+    if res == ["!E"] then .skip "constructor rejects k2" else
+    match args.mapM pfl, res.mapM pfl with
+    | some [_k2, xx], some [ec, phi, back] =>
+      if !(xx.abs < 1e300) then .skip "non-finite argument" else
+      let tol := 64 * 2.220446049250313e-16 * (xx.abs + ec)
+      let lin := 3.14159265358979323846 * xx / (2 * ec)
+      if !((back - xx).abs ≤ tol) then .bad s!"E(Einv(x)) = {back} but x = {xx} (tolerance {tol})"
+      else if !((phi - lin).abs ≤ 1.5707963267948966 * (1 + 1e-15) + 4e-16 * lin.abs) then .bad s!"Einv({xx}) = {phi} is not in the period of pi x/(2E) = {lin}"
+      else .ok
+    | _, _ => .bad "parse"
+  | "deltaeinv" => some <|
+    if res == ["!E"] then .skip "constructor rejects k2" else
+    match args.mapM pfl, res.mapM pfl with
+    | some [_k2, sig], some [dn, dE, r, e0] =>
+      -- tau = sig + dE carries (|sig| + |dE|) u; sigma(tau) has slope E0/dn
+      let slope := if e0 / dn > 1 then e0 / dn else 1
+      let tol := 64 * 2.220446049250313e-16 * (1 + sig.abs + dE.abs) * slope
+      if (r + dE).abs ≤ tol then .ok else .bad s!"deltaEinv(sin tau, cos tau) = {r} but sigma - tau = {-dE} (tolerance {tol})"
+    | _, _ => .bad "parse"
+  | _ => none
+
 def inRange (x : F64) (lo hi : Int) : Bool := x.isNaN || (F64.ge x (F64.ofInt lo) && F64.le x (F64.ofInt hi))
 
 def handle (op : String) (args res : List String) : Option Verdict :=
   match handleLine op args res with
   | some v => some v
   | none =>
+  match handleLineX op args res with
+  | some v => some v
+  | none =>
   match op with
   | "gdirect" => some <|
     match parseFs res with
     | some [glat, glon, gazi, elat, elon, eazi, _ugl, _uel, _ga12, _ea12] =>
-      let inputsFinite := match parseFs (args.take 5 ++ args.drop 6) with | some l => l.all F64.isFinite | none => false
+      let inputsFinite := match parseFs (args.take 5 ++ (args.drop 6).take 1) with | some l => l.all F64.isFinite | none => false
       if !inputsFinite then .skip "non-finite input" else
       if !(inRange glat (-90) 90 && inRange elat (-90) 90) then .bad s!"lat2 outside [-90,90]: series {showF glat} exact {showF elat}"
       else if !(inRange gazi (-180) 180 && inRange eazi (-180) 180) then .bad s!"azi2 outside [-180,180]: series {showF gazi} exact {showF eazi}"
@@ -144,6 +282,15 @@ def handle (op : String) (args res : List String) : Option Verdict :=
       if okS && cl o.m12b m12b (1 + Float.abs sig12) && cl o.m0 m0 1 && cl o.M12 M12 (1 + Float.abs sig12) && cl o.M21 M21 (1 + Float.abs sig12) then .ok
       else .bad s!"Geodesic::Lengths: impl=({s12b},{m12b},{m0},{M12},{M21}) model=({o.s12b},{o.m12b},{o.m0},{o.M12},{o.M21})"
     | _, _, _ => .bad "parse"
+  | "gsolvei" => some <|
+    match res with
+    | ["0", "12"] => .ok
+    | _ => .bad s!"GeodSolve -i: exit status / number of output fields = {res} (expected 0 and 12)"
+  | "gsolve" => some <|
+    -- tools/GeodSolve run in-process by the harness: one output line with the twelve fields of `-f`; the values are compared with the library call by the harness
+    match res with
+    | ["0", "12"] => .ok
+    | _ => .bad s!"GeodSolve: exit status / number of output fields = {res} (expected 0 and 12)"
   | "glengths" => some (.skip "m12/M12/M21/S12 are judged against the quadrature oracle by the harness")
   | "ginvlengths" => some (.skip "reversal, addition rules and interface agreement are judged by the harness")
   | _ => none
